@@ -1158,6 +1158,12 @@ func ruleEveryLoadedPackageRegistered(c *Check, rule string) {
 			return false
 		}
 		h := s.Common().StaticCallee()
+		if h == nil {
+			// a local function value (a closure kept in a variable)
+			if cals := c.G.CalleesOf(s); len(cals) == 1 {
+				h = cals[0]
+			}
+		}
 		if h == nil || !engine.InPackage(h, "loading") {
 			return false
 		}
@@ -1218,11 +1224,15 @@ func ruleEveryLoadedPackageRegistered(c *Check, rule string) {
 						if i == errIdx && a.Op == "nonnil" {
 							return true
 						}
-						// "this file is not a package" answered by the same call (a bool result)
-						if i != errIdx && (a.Op == "false" || a.Op == "true") {
-							if b, ok := a.V.Type().Underlying().(*types.Basic); ok && b.Kind() == types.Bool && a.Op == "false" {
+						// "this file is not a package" answered by the same call (a false bool result, or a
+						// nil package next to a nil error)
+						if i != errIdx && a.Op == "false" {
+							if b, ok := a.V.Type().Underlying().(*types.Basic); ok && b.Kind() == types.Bool {
 								return true
 							}
+						}
+						if i != errIdx && a.Op == "nil" {
+							return true
 						}
 					}
 				}
